@@ -841,10 +841,12 @@ class NetworkXGraphStorage:
                 self.lock.release()
 
     storage_instance = None
+    storage_instance_lock = Lock()
 
     def __init__(self, logger=None):
-        if not NetworkXGraphStorage.storage_instance:
-            NetworkXGraphStorage.storage_instance = NetworkXGraphStorage.__NetworkXGraphStorage(logger=logger)
+        with NetworkXGraphStorage.storage_instance_lock:
+            if not NetworkXGraphStorage.storage_instance:
+                NetworkXGraphStorage.storage_instance = NetworkXGraphStorage.__NetworkXGraphStorage(logger=logger)
 
     def __getattr__(self, name):
         return getattr(self.storage_instance, name)
